@@ -1,0 +1,14 @@
+//go:build verif
+
+// Contracts for govc (see /verif/DESIGN.md). Comment-only: no executable code with or without the tag.
+
+package lib
+
+//@ import anypb "google.golang.org/protobuf/types/known/anypb"
+
+// Interface contracts of lib.Transport as its callers use them (frames only).
+//@ func (t Transport) ParseParams(libVersion uint, data *anypb.Any) (any, error)
+//@   assigns nothing
+
+//@ func (t Transport) GetDstPort(libVersion uint, seed []byte, parameters any) (uint16, error)
+//@   assigns nothing
